@@ -27,7 +27,9 @@ SPEC = dict(
     rule="cases = random histories on one real node (incoming + peer Router.processEvent, real InMemCollector with one worker "
          "stepped by the harness, real StressRelief forced on/off, MockSharder, recording transmissions by pointer identity): "
          "span arrivals (2-6 traces, owner self/peer 10/peer 11, either listener, 2 endpoints/keys/datasets, map or msgpack payload, "
-         "probe marker absent/true/false, no trace id 7%), stress on/off, worker steps, upstream/peer dispatch; 40% of the cases run "
+         "probe marker absent/true/false, no trace id 7%), stress on/off, reloads of StressRelief.SamplingRate (real reloadConfigs, also while "
+         "stressed), decisions of the normal sampler entered into the real decision record (kept at rates 1..25 or dropped, 45% of the "
+         "cases start with one or two) whose later spans arrive under stress, worker steps, upstream/peer dispatch; 40% of the cases run "
          "two real DirectTransmissions against httptest servers (2 Honeycomb endpoints, 2 peers) and report what each server "
          "received, the others use transmit.MockTransmission and read the queued pointers at dispatch; every case ends with relief "
          "ending, late spans, worker catch-up and a full dispatch; non-trivial = at least one span kept under stress, a stress "
